@@ -827,6 +827,8 @@ def r18_10(ctx, counts) -> RuleResult:
                 return v[-1]
             if txt == ':-1':
                 return v[:-1]
+            if txt == '0':
+                return v[0]
         if isinstance(e, ast.UnaryOp) and isinstance(e.op, ast.Not):
             return not ev(e.operand, env)
         if isinstance(e, ast.BoolOp):
@@ -846,6 +848,9 @@ def r18_10(ctx, counts) -> RuleResult:
         if isinstance(e, ast.Call) and isinstance(e.func, ast.Attribute) \
                 and e.func.attr == 'endswith' and len(e.args) == 1:
             return ev(e.func.value, env).endswith(ev(e.args[0], env))
+        if isinstance(e, ast.Call) and isinstance(e.func, ast.Attribute) \
+                and e.func.attr == 'startswith' and len(e.args) == 1:
+            return ev(e.func.value, env).startswith(ev(e.args[0], env))
         raise AnalysisError(f'occurrence ladder: `{stmt_text(e)[:50]}` not interpreted')
 
     def run(stmts, env):
@@ -885,7 +890,31 @@ def r18_10(ctx, counts) -> RuleResult:
                                  f'`T{o1}` (the indicator of the second type is stripped or '
                                  f'ignored): a function returning T{o2} is judged an instance of '
                                  f'a function type returning T{o1}'))
+    # (b) the empty sequence matches empty-sequence(), T? and T* only
+    body = [st for st in f.node.body
+            if not (isinstance(st, ast.Expr) and isinstance(st.value, ast.Constant))
+            and not (isinstance(st, ast.Assign) and any(isinstance(y, ast.Call)
+                                                        for y in ast.walk(st.value)))]
+    n_e = 0
+    for t1 in ('item()', 'item()+', 'node()', 'node()+'):
+        n_e += 1
+        env = {p1: t1, p2: 'empty-sequence()'}
+        try:
+            run(body, env)
+            out = None
+        except _Ret as r:
+            out = r.v
+        res.instances.append(f'{t1} :> empty-sequence(): {"accepted" if out is True else "rejected"}')
+        if out is not True:
+            res.ok()
+        else:
+            res.fail(finding('R18.10', f, ladder[0], f'{t1} accepts empty-sequence()',
+                             f'is_sequence_type_restriction({t1!r}, "empty-sequence()") is True: '
+                             f'() matches empty-sequence() and does not match {t1}, so `function() '
+                             f'as empty-sequence() {{()}} instance of function() as {t1}` holds '
+                             f'and the subtype relation is unsound for matching'))
     counts['occurrence_pairs'] = n
+    counts['empty_sequence_rows'] = n_e
     return res
 
 
@@ -982,6 +1011,53 @@ def r18_12(ctx, counts) -> RuleResult:
     return res
 
 
+def r18_13(ctx, counts) -> RuleResult:
+    """a map / array matches a function test only if every entry matches the return type"""
+    from ..engine.srcmodel import walk_local
+    model: Model = ctx.model
+    res = RuleResult(
+        'R18.13', 'ENTRIES-QUANTIFIED-UNIVERSALLY',
+        'A map is a function(xs:anyAtomicType) as V? and an array a function(xs:integer) as V, '
+        'where V is matched by *all* its values (XPath 3.1, 2.5.6.2). In the '
+        'match_function_test overrides of the map and array tokens every quantifier over the '
+        'entries (`any(..)` / `all(..)` or a loop over self.items() / values() / keys()) is '
+        '`all(match_sequence_type(v, ..) for ..)` without a filter — the sibling agreement of the '
+        'two classes. With `any`, map{"a":1, 2:"b"} instance of function(xs:string) as '
+        'xs:integer? held and the empty map matched nothing.')
+    n = 0
+    for cname in ('XPathMap', 'XPathArray'):
+        cls = model.find_class(cname)
+        m = cls.methods.get('match_function_test') if cls is not None else None
+        if m is None:
+            raise AnalysisError(f'{cname}.match_function_test vanished')
+        qs = [x for x in walk_local(m.node) if isinstance(x, ast.Call)
+              and dotted(x.func) in ('any', 'all') and x.args
+              and isinstance(x.args[0], (ast.GeneratorExp, ast.ListComp))
+              and any(isinstance(y, ast.Call) and isinstance(y.func, ast.Attribute)
+                      and y.func.attr in ('items', 'values', 'keys')
+                      and stmt_text(y.func.value) == 'self'
+                      for g in x.args[0].generators for y in ast.walk(g.iter))]
+        if not qs:
+            raise AnalysisError(f'{m.key}: no quantifier over the entries located')
+        for q in qs:
+            n += 1
+            comp = q.args[0]
+            ok = dotted(q.func) == 'all' and not any(g.ifs for g in comp.generators) and any(
+                isinstance(y, ast.Call) and dotted(y.func).split('.')[-1] == 'match_sequence_type'
+                for y in ast.walk(comp.elt))
+            res.instances.append(f'{m.key}: `{stmt_text(q)[:60]}` tests every entry: {ok}')
+            if ok:
+                res.ok()
+            else:
+                res.fail(finding('R18.13', m, q, 'entries not quantified universally',
+                                 f'`{stmt_text(q)[:70]}` does not require every entry of the '
+                                 f'{cname[5:].lower()} to match the return type of the function '
+                                 f'test: one matching entry is enough and an empty container '
+                                 f'matches nothing'))
+    counts['entry_quantifiers'] = n
+    return res
+
+
 def run(ctx) -> dict:
     counts: dict[str, int] = {}
     from .c10_datatypes import r10_1, SPEC as C10SPEC
@@ -996,7 +1072,7 @@ def run(ctx) -> dict:
     results = [r18_1(ctx, counts), r18_2(ctx, counts), r3, r4, r18_6(ctx, counts),
                r18_7(ctx, counts), r18_8(ctx, counts),
                r18_9(ctx, counts), r18_10(ctx, counts), r18_11(ctx, counts),
-               r18_12(ctx, counts)]
+               r18_12(ctx, counts), r18_13(ctx, counts)]
     return {
         'results': results, 'counts': counts,
         'explanation':
